@@ -61,7 +61,7 @@ def a1(ctx, rep):
         f = cands[0]
         item = f['params'][1]['name']
         from .. import inline as _inl
-        helpers = tuple(g['name'].split('::')[-1] for g in ctx.fns(file='visitors.rs') if (g.get('self_ty') or '').startswith('TypeShareVisitor') and not g.get('trait') and g['name'].split('::')[-1] != 'target_os_accepted')
+        helpers = tuple(g['name'].split('::')[-1] for g in ctx.fns(file='visitors.rs') if ((g.get('self_ty') or '').startswith('TypeShareVisitor') or not g.get('self_ty')) and not g.get('trait') and g['name'].split('::')[-1] != 'target_os_accepted')
         fv = _inl.view(ctx, f, depth=4, force=helpers)   # the test may sit in a local helper shared by the item visitors
         calls = [c for c in fv['calls'] if c.get('f') in ('target_os_accepted', 'accept_target_os') and c.get('args') and vt.show(vt.strip(c['args'][0])) == f'{item}.attrs'
                  and (c.get('f') == 'target_os_accepted' or 'parse_context.target_os' in vt.show(c['args'][1]).replace(' ', ''))]
